@@ -509,6 +509,32 @@ static var __attribute__((noinline)) make_view(int kind, int n) {
 }
 static void __attribute__((noinline)) scrub_stack(void) { volatile char pad[4096]; for (size_t i = 0; i < sizeof pad; i++) { pad[i] = 0; } }
 static void __attribute__((noinline)) churn_garbage(int n) { for (int i = 0; i < n; i++) { var g = new(Array, Int, $I(i), $I(i + 1)); (void)g; var h = new(String, $S("garbage")); (void)h; } }
+/* ---------- containers of references that hold the only reference to what they refer to ----------
+** Array, List, Table and Tree of Ref and a heap Tuple: a helper fills one with references to fresh Ints and returns
+** only the container.  After enough garbage for several collections the referents are read through the container. */
+static var __attribute__((noinline)) make_ref_holder(int kind, int n) {
+  var c = kind == 0 ? (var)new(Array, Ref) : kind == 1 ? (var)new(List, Ref) : kind == 2 ? (var)new(Table, Int, Ref) : kind == 3 ? (var)new(Tree, Int, Ref) : (var)new(Tuple);
+  for (int i = 0; i < n; i++) {
+    var x = new(Int, $I(1000 * kind + i));
+    if (kind == 2 || kind == 3) { set(c, $I(i), $R(x)); } else if (kind == 4) { push(c, x); } else { push(c, $R(x)); }
+  }
+  return c;
+}
+static void containers_of_references(void) {
+  static const char* NAME[5] = { "Array of Ref", "List of Ref", "Table of Ref", "Tree of Ref", "heap Tuple" };
+  var holders[5]; int n = 8 + (int)below(40);
+  for (int k = 0; k < 5; k++) { holders[k] = make_ref_holder(k, n); }
+  scrub_stack();
+  churn_garbage(1500 + (int)below(1500));
+  for (int k = 0; k < 5; k++) {
+    int64_t sum = 0, items = 0;
+    if (k == 2 || k == 3) { foreach (key in holders[k]) { sum += c_int(deref(get(holders[k], key))); items++; } }
+    else if (k == 4) { foreach (x in holders[k]) { sum += c_int(x); items++; } }
+    else { foreach (x in holders[k]) { sum += c_int(deref(x)); items++; } }
+    OUT("%s holding the only references to %d Ints: %" PRId64 " items, sum %" PRId64, NAME[k], n, items, sum);
+  }
+}
+
 static void views_over_unshared_inputs(void) {
   var views[5]; int n = 6 + (int)below(20);
   for (int k = 0; k < 5; k++) { views[k] = make_view(k, n); }
@@ -610,7 +636,7 @@ int main(int argc, char** argv) {
   int rounds = 3 + (int)below(3);
   for (int i = 0; i < rounds; i++) {
     OUT("--- round %d", i);
-    sequences(); maps(); strings_and_formats(); exceptions(); values_and_types(); user_types(); embedded_strings(); thread_storage(); pooled_objects(); owners_left_to_the_collector(); views_over_unshared_inputs(); root_in_static_storage(); runtime_type_described_twice(); files(tag);
+    sequences(); maps(); strings_and_formats(); exceptions(); values_and_types(); user_types(); embedded_strings(); thread_storage(); pooled_objects(); owners_left_to_the_collector(); views_over_unshared_inputs(); containers_of_references(); root_in_static_storage(); runtime_type_described_twice(); files(tag);
   }
   OUT("done");
   return 0;
